@@ -34,11 +34,11 @@ def lookup(c, name, after=None):
     return None, None
 def is_self_attr(n): return isinstance(n, ast.Attribute) and isinstance(n.value, ast.Name) and n.value.id == "self"
 
-def analyse(cls, entry):
-    """(reads, writes, reached) of self attributes over everything reachable from cls.entry through self.<method>/super().<method>"""
+def analyse(cls, entry, skip=()):
+    """(reads, writes, reached) of self attributes over everything reachable from cls.entry through self.<method>/super().<method> (not descending into `skip`)"""
     reads, writes, seen = set(), set(), set()
     def visit(owner, fn):
-        if (owner, fn.name) in seen: return
+        if (owner, fn.name) in seen or fn.name in skip: return
         seen.add((owner, fn.name))
         for n in ast.walk(fn):
             if is_self_attr(n):
@@ -120,6 +120,11 @@ for cls in SOLVERS:
     lost = sorted(none_at_init & assigned_in_solve & saved)
     ob(f"{mod}.restore.post.template_covers_saved", not lost, f"saved fields that are None in a fresh solver's template but assigned by solve(): {lost}")
     results[-1]["meta"] = {"lost": lost}
+    # C09's share of the same fact: a CARRIED field (read by solve() before it is written) that the template drops makes the resumed run differ
+    rc_, wc_, _ = analyse(cls, "solve", skip=("solver_state", "save"))          # reads that feed the computation, not the ones made only to save / return the state
+    lost_c = sorted(set(lost) & (rc_ & wc_))
+    ob(f"{mod}.restore.post.template_covers_carried_state", not lost_c, f"carried fields that are None in a fresh solver's restore template (Orbax then returns None for them): {lost_c}")
+    results[-1]["meta"] = {"lost": lost_c}
     k, m = lookup(cls, "solve")
     funcs.append({"name": f"{mod}.solve", "lines": [m.lineno, m.end_lineno], "carried": sorted(carried), "saved": sorted(saved), "restored": sorted(rmap)})
 rep = {"target": "frame_static", "unit": "frame_static", "results": results, "error": None, "paths": len(SOLVERS), "pruned": 0,
